@@ -21,7 +21,8 @@ def configs():
             if cl is not _OMIT:
                 o['closed_ring'] = cl
             if sg is not _OMIT:
-                o['segments'] = sg
+                # 'auto' read from data (a config file, JSON, argv) is an equal but not identical string: two of the three spellings use one
+                o['segments'] = ''.join(['au', 'to']) if (sg == 'auto' and cl is not _OMIT) else sg
             out.append((f'closed={cl},segments={sg}', o))
     return out
 
